@@ -77,3 +77,15 @@ def update(pid, mirrors):
     os.makedirs(d, exist_ok=True)
     with open(os.path.join(d, pid + ".json"), "w") as f:
         json.dump(current(mirrors), f, indent=1, sort_keys=True)
+
+
+def mirrors_for(pid, mod=None):
+    """The functions mirrored by property pid: the harness's own MIRRORS, else fingerprints/mirrors.json."""
+    m = getattr(mod, "MIRRORS", None) if mod is not None else None
+    if m:
+        return [tuple(x) for x in m]
+    p = os.path.join(VERIF, "fingerprints", "mirrors.json")
+    if os.path.exists(p):
+        with open(p) as f:
+            return [tuple(x) for x in json.load(f).get(pid, [])]
+    return []
